@@ -139,6 +139,10 @@ NEEDS = {
                   'push whose first CAS fails while the emptiness of the FIFO changed (concurrent pop of the only element, or two pushers on an empty FIFO)'),
     'C07-r2-m2': ('uring_lifo_push(): elem->next rewritten only if the top differs from a cached index that is never refreshed',
                   'one push failing its CAS twice with the top going A -> B -> A'),
+    'C08-r2-m1': ('udeal_start(): watcher not started for the first contender (early return after the direct callback)',
+                  'first contender refused at udeal_grab() because another one got in meanwhile; when the holder yields nothing listens for the first one'),
+    'C08-r2-m2': ('udeal_grab(): while -> if, plain fetch_add after backing off',
+                  'three contenders: the holder yields during a refused attempt, a third one grabs legitimately before the second fetch_add'),
     'C09-r2-m1': ('urefcount_use(): load + single compare-exchange whose failure is ignored',
                   'another thread modifies the same counter between the load and the compare-exchange'),
     'C09-r2-m2': ('ubuf_block_mem_free(): "sole owner" fast path, otherwise release whose result is ignored',
